@@ -189,7 +189,9 @@ func (l *entryLog) AddEntries(entries []raftpb.Entry) error {
 
 	for _, re := range entries {
 		// Write upto maxNumEntries or maxLogFileSize, whatever happens first.
-		if l.nextEntryIdx >= maxNumEntries || offset+unit32Size+len(re.Data) > maxLogFileSize {
+		// A file without entries is never rotated: an entry that does not fit into an empty file does not fit
+		// into the next one either, and a file without entries in l.files (firstIndex 0) breaks slotGe's search.
+		if l.nextEntryIdx >= maxNumEntries || (l.nextEntryIdx > 0 && offset+unit32Size+len(re.Data) > maxLogFileSize) {
 			if err := l.rotate(re.Index, offset); err != nil {
 				return err
 			}
